@@ -67,6 +67,7 @@ package xsort
 //@   props C19
 //@   requires less != nil && swoT(less) && itInv(iter)
 //@   modifies iter.pos, iter.pulls
+//@   before call New[0]: ghost callarg1.want := false
 //@   loop 0: invariant itInv(iter) && old(iter.pos) <= iter.pos && wfH(h) && !h.indexChanged.tracks && fresh(h.indexChanged)
 //@   loop 0: invariant len(h.a) == min(max(k, 0), iter.pos - old(iter.pos)) && (len(h.a) == 0 || fresh(h.a))
 //@   loop 0: invariant forall a T, b T {h.lessFn(a, b)} :: h.lessFn(a, b) == less(b, a)
